@@ -251,3 +251,40 @@ def install_fake_gdb():
     m.gdb = _G()
     m._fast_access = lambda value, key: value.field(key)
     return m
+
+
+def always_matcher(rnd):
+    from core import matcher
+    return matcher.AlwaysMatcher(rnd.random() < 0.5)
+
+
+def _leaf(rnd):
+    from core import matcher
+    r = rnd.random()
+    if r < 0.25:
+        return matcher.AlwaysMatcher(rnd.random() < 0.7)
+    return matcher.parse(rnd.choice(['wl_display', 'wl_surface', '.sync', '.get_registry', '3', '2a', 'wl_*', '.commit', '1.get_registry'])).simplify()
+
+
+def matcher_list(rnd):
+    from core import matcher
+    return matcher.MatcherList([_leaf(rnd) for _ in range(rnd.randint(0, 4))], [_leaf(rnd) for _ in range(rnd.randint(0, 3))])
+
+
+def join_pair(rnd):
+    """(new, old) as Controller.parse_and_join passes them: `new` is fresh from the parser (not simplified), `old` is an accumulated matcher"""
+    from core import matcher
+    def one():
+        r = rnd.random()
+        if r < 0.2:
+            return matcher.AlwaysMatcher(rnd.random() < 0.8)
+        if r < 0.5:
+            return _leaf(rnd)
+        if r < 0.75:
+            return matcher_list(rnd)
+        return matcher.parse(rnd.choice(['[wl_surface, wl_display]', '[.sync ! wl_display]', '[!3]', '[* ! .commit]', '[wl_display]', '[*]']))
+    new = one()
+    old = one()
+    if rnd.random() < 0.5:
+        old = matcher.join(one(), old)
+    return (new, old)
